@@ -26,7 +26,7 @@ Lemma sk0_subtree : forall q e n, sk0 e -> subtree e q = Some n -> sk0 n.
 Proof.
   induction q as [|d q IH]; intros e n H S; [cbn in S; inversion S; subst; exact H|].
   destruct e as [| |u c|k l r]; destruct d; cbn [subtree] in S; try discriminate.
-  - destruct u; cbn [sk0] in H; try (eapply IH; eauto; fail). destruct H as (m & ->). destruct q; cbn in S; [inversion S; exact I|discriminate].
+  - destruct u; cbn [sk0] in H; try contradiction; try (eapply IH; eauto; fail). destruct H as (m & ->). destruct q; cbn in S; [inversion S; exact I|discriminate].
   - destruct k; cbn [sk0] in H; try contradiction; eapply IH; eauto; tauto.
   - destruct k; cbn [sk0] in H; try contradiction; eapply IH; eauto; tauto.
 Qed.
@@ -110,7 +110,7 @@ Proof.
       destruct (parent_is_op q0 e d n Hn) as (pe & Hpe & Op). rewrite Hpe in Hsib.
       apply (keeps_drop_child q0 e pe sib Hpe Op); [|exact Se].
       destruct pe as [c0|v0|u0 c0|k0 a0 b0]; destruct d; cbn [lft rgt] in Hsib; try discriminate; inversion Hsib; subst.
-      - destruct u0; cbn [sk0]; auto. intros (m & ->). exact I.
+      - destruct u0; cbn [sk0]; auto; try contradiction. intros (m & ->). exact I.
       - destruct k0; cbn [sk0]; tauto.
       - destruct k0; cbn [sk0]; tauto. }
     destruct s; simpl in SB, N |- *.
